@@ -37,23 +37,31 @@ HARNESSES = [
         '_getkey_function; manifest: _type, _getter; make_seq: _length_getter, _element_getter'),
 ]
 
-HARNESSES += [
- dict(id='c11_db_remap', property='C11', src='c11_db_remap.cxx', entry='harness_c11_db_remap',
+def _db(id, first):
+    return dict(id=id, property='C11', src='c11_db_remap.cxx', entry='harness_c11_db_remap',
       tus=[_DB + t for t in ('interrogateDatabase.cxx', 'indexRemapper.cxx', 'interrogateType.cxx', 'interrogateFunction.cxx',
                              'interrogateFunctionWrapper.cxx', 'interrogateElement.cxx', 'interrogateManifest.cxx', 'interrogateMakeSeq.cxx',
                              'interrogateComponent.cxx')],
-      desc='InterrogateDatabase::remap_indices(first, remap) on a database of 2 wrappers, 2 functions, 2 types, 1 manifest, 1 element, 1 make_seq',
-      domain='concrete sparse old indices (2,3,4,5,6,7,8,9,12); every index-valued scalar field symbolic over {0} + the existing '
-             'entities of its kind; flags/values over all of int; first in 1..FIRST_MAX; records without strings and vectors; real IndexRemapper',
-      oracle='wrappers get first, first+1; then functions, types, manifests, elements, make_seqs in old-index order; return value = '
+      cut=['_ZN19InterrogateDatabase11load_latestEv'],
+      cbmc_flags=['--max-field-sensitivity-array-size', '512'],    # records live in std::map nodes (408-byte membuf), see cat/c20.py
+      desc='InterrogateDatabase::remap_indices(%d, remap) on a database of 2 wrappers, 2 functions, 2 types, 1 manifest, 1 element, 1 make_seq' % first,
+      domain='concrete sparse old indices (2,3,4,5,6,7,8,9,12) and concrete first index %d (a symbolic one makes the shape of the six fresh '
+             'std::maps symbolic: no verdict in 900 s); every index-valued scalar field symbolic over {0} + the existing entities of its '
+             'kind; flags/values over all of int; records without strings and vectors; real IndexRemapper' % first,
+      oracle='wrappers get first, first+1 in old-index order; then functions, types, manifests, elements, make_seqs; return value = '
              '_next_index = first + 9; the remapper maps every old index to its new one; every reference field and every '
              'enumeration vector entry equals the new index of the entity it referred to; other fields unchanged',
-      bounds={'quick': dict(defs=dict(FIRST_MAX=1), unwind=6, unwindset=_US, cap=900)}),
-]
+      bounds={'quick': dict(defs=dict(FIRST=first), unwind=6, unwindset=_US, cap=900)})
+
+
+# 1: what InterrogateBuilder::remap_indices passes; 100: a module range assigned by request_module (InterrogateDatabase::read)
+HARNESSES += [_db('c11_db_remap', 1), _db('c11_db_remap_100', 100)]
 
 PROPERTY_INFO = {'C11': {'level': 'model_checking',
          'explanation': 'bounded symbolic execution (CBMC) of the real index-rewriting code lowered from /repo',
-         'outside': 'agreement of the generated C signatures with the database (checked where the wrappers are called, C01); '
+         'outside': 'agreement of the generated C signatures with the database: decided by the C01 run (engine/c01check.py declares every wrapper '
+                    'from the signature recorded in the database and calls it through that declaration, so a disagreement is ill-typed or '
+                    'fails there); '
                     'InterrogateBuilder::get_type removal of invalid types (needs parser state); unique-name distinctness (C03); '
                     'databases larger than the bounds',
          'assumptions': ['IndexRemapper::map_from is replaced by a family of injective functions (bit rotations) in the per-record harnesses']}}
